@@ -231,6 +231,10 @@ def run(chk, args):
                 break
     findings, accepted = brokerlib.validate(chk, ok)
     chk.cov["traces_validated_against_impl"] += accepted
+    if ok and accepted < len(ok) // 2:
+        # findings of the trace validation belong to C02/C03/C04; but when most sequences are not behaviours
+        # of the model, what this check concluded from them is not to be trusted either
+        chk.fail("only %d of %d replayed sequences were accepted by spec/Broker (first finding: %s)" % (accepted, len(ok), findings[0][1] if findings else "?"))
     chk.cov["evaluations"] += len(scen)
     if chk.tier == "thorough":
         tcp_part(chk, sel)
